@@ -199,7 +199,7 @@ func buildScript(prelude *Prelude, pre string, cmds []Cmd, only int, timeoutMs i
 				fmt.Fprintf(&sb, "(set-option :timeout %d)\n", timeoutMs)
 			}
 		}
-		if !ck.ExpectSat {
+		if !ck.ExpectSat && !ck.NoAssume {
 			fmt.Fprintf(&sb, "(assert %s)\n", ck.Goal)
 		}
 	}
